@@ -198,6 +198,9 @@ func (builder *RuleBuilder) BuildRuleFromResource(name, version string, resource
 	dur := time.Now().Sub(startTime)
 
 	if errReporter.HasError() {
+		// none of the rules of a rejected text stays in the knowledge base: the one the parser gave up on is there
+		// half built and fails every later run, and the good ones would make the corrected text a duplicate
+		knowledgeBase.DiscardRuleEntries(grl.RuleEntries)
 		// what the rejected text left in the working memory without a rule entry must not stay there
 		knowledgeBase.WorkingMemory.RemoveUnreachable(knowledgeBase.MakeCatalog().Data)
 		BuilderLog.Errorf("GRL syntax error. got %s", errReporter.Error())
